@@ -6,6 +6,8 @@ patch="$1"; shift
 cd /verif
 if [ -n "$(git -C /repo status --porcelain --untracked-files=no)" ]; then echo "refusing: /repo dirty"; exit 2; fi
 git -C /repo apply "$patch" || { echo "patch does not apply"; exit 2; }
+# the evidence files must keep describing runs on the unchanged tree: save and restore them
+bak="$(mktemp -d)"; cp -a /verif/evidence/. "$bak"/ 2>/dev/null
 for id in "$@"; do
   out=$(./check $id quick 2>&1); rc=$?
   n=$(echo "$out" | grep -c "^VIOLATION")
@@ -13,3 +15,4 @@ for id in "$@"; do
   echo "  $id exit=$rc violations=$n $first"
 done
 git -C /repo checkout -- .
+cp -a "$bak"/. /verif/evidence/ 2>/dev/null; rm -rf "$bak"
